@@ -30,9 +30,9 @@ def scratch_copy(repo):
     return d
 
 
-def run_patch(pid, mod, patch, repo=None, keep=False):
+def run_patch(pid, mod, patch, repo=None, keep=False, header=None):
     repo = repo or engine.REPO
-    meta = parse_header(patch)
+    meta = header or parse_header(patch)
     name = os.path.basename(patch)
     d = scratch_copy(repo)
     try:
@@ -65,6 +65,25 @@ def run_patch(pid, mod, patch, repo=None, keep=False):
             shutil.rmtree(d, ignore_errors=True)
 
 
+def seeded_patches(pid):
+    """changes written by independent sub-agents for this property (seeded/<id>/patch.diff)"""
+    out = []
+    sd = os.path.join(engine.VERIF, 'seeded')
+    if os.path.isdir(sd):
+        for d in sorted(os.listdir(sd)):
+            p = os.path.join(sd, d, 'patch.diff')
+            m = os.path.join(sd, d, 'meta.json')
+            if os.path.exists(p) and os.path.exists(m):
+                try:
+                    import json
+                    prop = json.load(open(m)).get('property')
+                except Exception:
+                    prop = None
+                if prop == pid or d.startswith(pid):
+                    out.append((d, p))
+    return out
+
+
 def run_for(pid, mod):
     d = os.path.join(MUT_DIR, pid)
     res = []
@@ -72,6 +91,10 @@ def run_for(pid, mod):
         for f in sorted(os.listdir(d)):
             if f.endswith('.patch'):
                 res.append(run_patch(pid, mod, os.path.join(d, f)))
+    for name, p in seeded_patches(pid):
+        r = run_patch(pid, mod, p, header={'what': 'seeded change %s (independent sub-agent)' % name, 'expect': pid})
+        r['name'] = 'seeded/' + name
+        res.append(r)
     return {'results': res,
             'killed': len([r for r in res if r['status'] == 'killed']),
             'missed': len([r for r in res if r['status'] == 'missed']),
